@@ -46,6 +46,33 @@ fn random_set(g: &mut Gen, n: u64, m: u64) -> Vec<u64> {
     v
 }
 
+/// sparse vectors over universes at the top of the usize range: built, queried, written and loaded back
+pub fn sparse_top_universes(g: &mut Gen) {
+    // universes at the top of the usize range (the last bucket of every low width ends at or beyond 2^64), few values
+    for n in [MAXU, MAXU - 1, MAXU - 62, (1u64 << 63) + 1, 1u64 << 63, (1u64 << 63) - 1, 3u64 << 62, MAXU - (1u64 << 61), MAXU - (1u64 << 60) + 5] {
+        for k in [1usize, 2, 3, 5, 17] {
+            let mut vals: Vec<u64> = (0..k).map(|i| match i { 0 => g.rng.below(1000), 1 => n - 1, 2 => n / 2, _ => g.rng.below(n) }).collect();
+            vals.sort(); vals.dedup();
+            let mut lines = vec![format!("sp A build {} 0 {}", n, vals_str(&vals))];
+            lines.push("sp A len".to_string()); lines.push("sp A ones".to_string()); lines.push("sp A ser".to_string());
+            let mut xs: Vec<u64> = vec![0, 1, 999, 1000, n / 2 - 1, n / 2, n / 2 + 1, n - 2, n - 1, n, MAXU];
+            xs.extend(vals.iter().cloned());
+            for x in xs {
+                if x < n { lines.push(format!("sp A get {}", x)); }
+                lines.push(format!("sp A rank {}", x)); lines.push(format!("sp A pred {}", x)); lines.push(format!("sp A succ {}", x));
+            }
+            for r in 0..=(vals.len() as u64) { lines.push(format!("sp A select {}", r)); }
+            for r in [0u64, 1, 999, n / 2, n - vals.len() as u64 - 1, n - vals.len() as u64] { lines.push(format!("sp A select0 {}", r)); }
+            lines.push(format!("sp A it one : {} l b", vec!["n"; vals.len()].join(" ")));
+            // … and back through a file
+            lines.push("ser reload A R extra=2".to_string()); lines.push("sp R len".to_string()); lines.push("sp R ones".to_string());
+            lines.push(format!("sp R rank {}", n - 1)); lines.push(format!("sp R select {}", vals.len() - 1)); lines.push(format!("sp R pred {}", MAXU));
+            lines.push("ser seq A R A".to_string());
+            g.group(lines);
+        }
+    }
+}
+
 pub fn c02(g: &mut Gen) {
     // vectors built through the builder's OTHER public routes: `set`, `Extend::extend` in several chunks, mixed — the
     // conversion's bytes are compared, then the same positions are queried through `build`
@@ -60,6 +87,7 @@ pub fn c02(g: &mut Gen) {
         lines.push(format!("sp A build {} 0 {}", n, vals_str(&vals))); lines.push("sp A ser".to_string());
         g.group(lines);
     }
+    sparse_top_universes(g);
     // exhaustive: every universe up to N, every subset, every argument
     let maxn = if g.thorough { 10 } else { 8 };
     for n in 0..=maxn {
